@@ -17,7 +17,7 @@ def s_tok(s):
 # ---------------------------------------------------------------------------------------------
 # generators (boundary-biased, from the repo's own classes)
 # ---------------------------------------------------------------------------------------------
-CHARS = ['a', 'Z', '/', '+', '#', ' ', 'ñ', 'ß', 'Ж', '€', '温', '￿', '\U0001F600', '\U0010FFFF', '\x01', '\x7f', '\x80', '߿', 'ࠀ']
+CHARS = ['a', 'Z', '/', '+', '#', ' ', 'ñ', 'ß', 'Ж', '€', '温', '￿', '\U0001F600', '\U0010FFFF', '\x01', '\x7f', '\x80', '߿', 'ࠀ', '\ufeff', '\ufffe', '\u2028']
 
 def rand_str(rng, nbytes=None, maxlen=12):
     """a str over the whole Unicode range (1-4 byte UTF-8 sequences), optionally of an exact byte length"""
@@ -343,6 +343,8 @@ def unrepresentable_cases():
         out.append(('publish', dict(base_pub, topic=s, qos=0, msgId=None)))
         out.append(('subscribe', dict(msgId=3, topics=[('ok', 0), (s, 1)])))
         out.append(('unsubscribe', dict(msgId=3, topics=[s])))
+        out.append(('unsubscribe', dict(msgId=3, topics=['ok', 'also/ok', s])))
+        out.append(('subscribe', dict(msgId=3, topics=[('ok', 0), ('also/ok', 2), (s, 1), ('t', 0)])))
         out.append(('connect', dict(base_con, clientId=s)))
         out.append(('connect', dict(base_con, willTopic=s, willMessage='m')))
         out.append(('connect', dict(base_con, willTopic='w', willMessage=s)))
@@ -383,6 +385,33 @@ def check_unrepresentable():
                 fails.append(dict(what='C02: unrepresentable input raised %s (not ValueError/TypeError)' % name, kind=kind, fields=f))
             elif o is not None and o.encoded is not None:
                 fails.append(dict(what='C02: failed encode left bytes in .encoded', kind=kind, fields=f))
+    return fails, n
+
+def check_history_independence(cases):
+    """the bytes of a packet do not depend on what was encoded before it -- in particular not on encode() calls that were refused
+    part-way (a topic list whose second or later element cannot be encoded, an identifier out of range, a payload of the wrong type)"""
+    fails, n = [], 0
+    bad = unrepresentable_cases()
+    for kind, f in cases:
+        if kind not in CLASSES:
+            continue
+        try:
+            b0 = bytes(real_object(kind, f).encode())
+        except Exception:
+            continue
+        for bk, bf in bad:
+            try:
+                real_object(bk, bf).encode()
+            except Exception:
+                pass
+        n += 1
+        try:
+            b1 = bytes(real_object(kind, f).encode())
+        except Exception as e:
+            b1 = ('raised ' + err_name(e)).encode()
+        if b0 != b1:
+            fails.append(dict(what='C01: the encoding of a packet depends on what was (unsuccessfully) encoded before it', kind=kind, fields=f,
+                              before=hx(b0)[:80], after=hx(b1)[:80]))
     return fails, n
 
 # ---------------------------------------------------------------------------------------------
